@@ -371,6 +371,18 @@ fn main() {
             let expected = ndt(2000, 6, 15) - Days::new(128);
             report("case", "d2", "add_days(2000-06-15, -128, Act, false)", &show(&res), &expected.to_string(), res == Some(expected));
         }
+        // finding D7: gradient1_manifold for a name the number does not depend on
+        "d7" => {
+            use rateslib::dual::{Dual2, Gradient2};
+            let d1 = Dual2::try_new(2.0, vec!["x".to_string(), "y".to_string()], vec![1., 2.], vec![2., 3., 3., 5.]).unwrap();
+            let r = d1.gradient1_manifold(vec!["y".to_string(), "w".to_string()]);
+            let g: Vec<f64> = {
+                use rateslib::dual::Gradient1;
+                r[1].gradient1(vec!["y".to_string(), "w".to_string()]).to_vec()
+            };
+            let ok = g == vec![0.0, 0.0];
+            report("case", "d7", "Dual2(2.0, [x,y], [1,2], [[2,3],[3,5]]).gradient1_manifold([y, w])[1].gradient1([y, w])", &format!("{:?}", g), "[0.0, 0.0]", ok);
+        }
         "probe" => {
             let func = args.get(2).map(|s| s.as_str()).unwrap_or("");
             let found = probe_dateroll(func) || probe_months(func) || probe_dual::probe(func);
